@@ -14,13 +14,13 @@ class TagsNode(BaseNode):
             return TagsNode(parser)
             
     def parse(self, env):
-        if env.nodes[-1].keyword not in ['str','int','float','bool']:
-            raise Exception("Format can be set only to str, int, float and bool nodes:", env.nodes[-1].code)
+        if env.nodes.current().keyword not in ['str','int','float','bool']:
+            raise Exception("Format can be set only to str, int, float and bool nodes:", env.nodes.current().code)
         tags = json.loads(self.value_raw)
         if not isinstance(tags, list):
             raise Exception("Tags can be input only as an array of strings, instead received:", tags)
-        if env.nodes[-1].tags == None:
-            env.nodes[-1].tags = tags
+        if env.nodes.current().tags == None:
+            env.nodes.current().tags = tags
         else:
-            env.nodes[-1].tags += tags
+            env.nodes.current().tags += tags
         return None
